@@ -3,7 +3,12 @@
    proofs/RelEditStP.v (the store: detach/attach/splice, every operation through handles),
    proofs/RelEditHistP.v (histories), proofs/RelEditReparseP.v (the bridge to C10's reader
    theorem), proofs/RelEditFullP.v (histories with re-read), proofs/RelEditRefuteP.v (witnesses by
-   evaluation).
+   evaluation); for any well-formed field: proofs/RelEditTreeP.v + RelEditReplaceP.v (the machine
+   computes the tree functions of model/RelEditTree.v on any tree), RelLiveP.v (those functions on
+   the trees of the live layouts of model/RelLive.v), RelLiveStepP.v (entries, contents),
+   RelLiveWfP.v (well-formedness, totality), RelLiveNormP.v (the bridges to C10's fields),
+   RelLiveHistP.v (one operation, histories, re-read), RelEditParsedP.v + RelLiveParsedP.v (operands
+   obtained by parsing).
 
    The model (model/RelEdit.v) is the editing API of debian-control/src/lossless/relations.rs
    over a store of trees with re-based handles (rowan's red layer as the code experiences it);
@@ -22,32 +27,50 @@
    variant that lacks only that fix, and the repaired outcome on [fixed].
 
    What is proved and what is not (C11_full stays a Definition, see C11_partial_note below):
-   * PROVED, unbounded, at the level of the STORE (no-panic + refinement + visibility in the
-     root + text): every in-range history of push / insert / replace / remove_entry /
-     Entry::push / Entry::replace / remove_relation / set_version / drop_constraint /
-     set_archqual, with operands built by Entry::from(vec![Relation::new(..)]) / Relation::new,
-     from Relations::new() or from any field built by the constructors (and qualifiers added by
-     set_archqual): C11_history_constructed,
-     C11_history_from_constructors, C11_history_from_new.  After every step the root register
-     holds exactly the constructor-built tree of the list model's field; its structure (read by
-     the model of the accessors) is the list model; its text is the canonical rendering, so
-     separators are never duplicated, dangling or fused.  With identifier texts in the operands
-     the printed text is also proved to read back, strictly and without error, as the list
-     model (C11_history_constructed_reread, through C10_lossless): this is C11_full restricted
-     to constructor-built fields, these ten operations and constructor-built operands.
-   * PROVED for ANY children list (any layout, empty entries, substitution variables, error
-     nodes): the frame lemmas of the list surgery — Entry::remove / Relation::remove delete the
-     node plus adjacent white space and at most one separator token and nothing else;
-     insert/push add the entry plus separator tokens only; the entries after an insert are the
-     list insert of the entries before (C11_insert_entries); an update below a path leaves all
-     text outside that node alone (C11_frame_subtree); and the store-level effect of
-     Entry::remove through a handle at any path of any tree (C11_entry_remove_store).
-   * NOT PROVED (covered by the rel-edit stream and its oracle on every run): the history
-     theorem for fields with layouts other than the constructors' (and with it the re-read
-     clause for those layouts); operands built by parsing and by the builder;
-     set_architectures, add_profile inside the history theorem; handles obtained earlier. *)
-From V.model Require Import Base RelLex RelParse RelEdit RelEditSpec.
+   * PROVED, unbounded, for ANY WELL-FORMED FIELD in the sense of C10 (RelGrammar.wf_rfield:
+     arbitrary white space in every slot, newlines, empty entries, trailing comma, substitution
+     variables) and the empty field, for all twelve operations (push / insert / replace /
+     remove_entry / Entry::push / Entry::replace / remove_relation / set_version /
+     drop_constraint / set_archqual, and set_architectures / add_profile), operands built by
+     Entry::from(vec![Relation::new(..)]) / Relation::new with identifier texts (section 1b) or
+     obtained by parsing the text of any well-formed entry / relation with Entry::from_str /
+     Relation::from_str (section 1c; the two kinds mixed freely in a history).
+     One operation (C11_any_step, C11_any_step_tree, C11_any_field_step): the register machine,
+     started with the tree of the field in the root register, does not panic; the root then holds
+     the tree of the layout the abstract operation [a_op] produces; that layout is well-formed;
+     its content is the list model [xstep] applied to the content before; substitution variables
+     and all entries the operation does not name are untouched (the same layouts, so the same
+     text).  Histories by induction (C11_any_history, _from_text, _from_strict_text, _from_empty,
+     _all) and the re-read after every step through C10 (C11_any_reread): the printed text is a
+     well-formed field and parses, without error (strictly, when substitution variables are not
+     allowed), to exactly the list model's content.
+     No new defect turned up on the odd-but-well-formed layouts: with the eight fixes every
+     operation is total on well-formed layouts (C11_any_step: a_op is defined whenever the
+     positions exist, in particular Entry::remove's "Unexpected node" panic is unreachable).
+   * PROVED earlier, for fields built by the constructors (sections 1, 2): the same with the
+     result spelled out as the canonical tree and text of the list model [lfield] of
+     RelEditSpec.v and read by the accessor model [structure]:
+     C11_history_constructed(_reread), C11_history_from_constructors, C11_history_from_new.
+   * PROVED for ANY children list (any layout, error nodes included): the frame lemmas of the
+     list surgery (section 3), the store-level effect of Entry::remove through a handle at any
+     path of any tree (section 4), and the machine = tree function theorem on any tree
+     (C11_any_machine_step).
+   * NOT PROVED — what remains of C11_full (covered by the rel-edit stream and its oracle on
+     every run): (a) operands built by RelationBuilder / From<lossy::Relation> (qualifier,
+     architectures, profiles added to a relation that is the root of its own tree: the
+     re-rooting tail of set_version & co. then takes its parentless branch) and Entry::new +
+     push; the layers above the store are already stated for an arbitrary well-formed operand
+     layout;
+     (b) C11_full quantifies over every text that PARSES without error; section 1b quantifies
+     over the renderings of well-formed fields (C10 proves wf field => parses without error to
+     rtree_of; the converse, that nothing else parses without error, is not proved);
+     (c) section 1b states the content with C10's [rcontent]/[racc] (name, qualifier, operator
+     and version text, architectures, profiles) and C11_full with this cone's accessor model
+     [structure]; the two are not connected by a theorem for arbitrary layouts;
+     (d) handles obtained earlier than the last mutation (finding c11-handle-after-rebuild). *)
+From V.model Require Import Base RelLex RelParse RelAcc RelGrammar RelEdit RelEditSpec RelEditTree RelLive.
 From V.proofs Require Import BaseP RelEditP RelEditStP RelEditHistP RelEditReparseP RelEditFullP RelEditRefuteP.
+From V.proofs Require Import RelEditTreeP RelEditReplaceP RelEditParsedP RelLiveP RelLiveStepP RelLiveWfP RelLiveNormP RelLiveHistP RelLiveParsedP.
 
 (* the whole property, as a statement about a variant of the code (model/RelEditSpec.v) *)
 Definition C11_partial_note : Prop := C11_full fixed.
@@ -156,6 +179,306 @@ Check C11_history_from_new : forall ops,
                   structure (cfield_tree f') = Ok f' /\
                   root_text st' = Ok (render_field f').
 Print Assumptions C11_history_from_new.
+
+(* 1b. ANY well-formed field (C10's RelGrammar.wf_rfield: every white space slot arbitrary, empty
+   entries, trailing comma, substitution variables), all twelve operations.
+   model/RelLive.v: live layouts [lroot] (which node owns which white space is explicit: an edit
+   does not move white space between nodes, the parser would), [ltree], [lwf], [lcontent], the
+   abstract operations [a_op] (which separators and white space come and go, by position), the
+   list model on contents [xstep], [live_of : rfield -> lroot], [norm : lroot -> rfield].
+   An exact  op (rtree_of f) = rtree_of f'  is false in general (after removing the last entry of
+   "a , b " the white space stays a child of the ROOT; the parser puts it into the RELATION), so
+   the single-step statement is on live layouts and comes back to fields through [norm]:
+   same text, well-formed, same content. *)
+(* every well-formed field is a live layout: same tree, well-formed, same content *)
+Theorem C11_any_layout : forall b f, wf_rfield b f = true ->
+  ltree (live_of f) = rtree_of f /\ lwf b (live_of f) = true /\ lcontent (live_of f) = rcontent f.
+Proof. exact (fun b f H => conj (ltree_live_of f) (conj (lwf_live_of b f H) (lcontent_live_of f))). Qed.
+Check C11_any_layout : forall b f, wf_rfield b f = true ->
+  ltree (live_of f) = rtree_of f /\ lwf b (live_of f) = true /\ lcontent (live_of f) = rcontent f.
+Print Assumptions C11_any_layout.
+
+(* every well-formed live layout reads as a well-formed field: same text, same content *)
+Theorem C11_any_norm : forall b l, lwf b l = true ->
+  rrender (norm l) = text (ltree l) /\ wf_rfield b (norm l) = true /\ rcontent (norm l) = lcontent l.
+Proof. exact (fun b l H => conj (rrender_norm b l H) (conj (wf_norm b l H) (rcontent_norm b l H))). Qed.
+Check C11_any_norm : forall b l, lwf b l = true ->
+  rrender (norm l) = text (ltree l) /\ wf_rfield b (norm l) = true /\ rcontent (norm l) = lcontent l.
+Print Assumptions C11_any_norm.
+
+(* (1) one operation, on trees: defined (no panic), the tree of the abstract operation's layout, well-formed, the list model on contents, substitution variables kept, the other entries the very same layouts (estep: a list operation on the entries) *)
+Theorem C11_any_step_tree : forall b o l, lwf b l = true -> operands_ok o = true -> x_in_range (fst (lcontent l)) o = true ->
+  exists l', a_op o l = Some l' /\
+             t_op o (ltree l) = Ok (ltree l') /\
+             lwf b l' = true /\
+             lcontent l' = (xstep (fst (lcontent l)) o, snd (lcontent l)) /\
+             lentries l' = estep (lentries l) o.
+Proof. exact live_step_tree. Qed.
+Check C11_any_step_tree : forall b o l, lwf b l = true -> operands_ok o = true -> x_in_range (fst (lcontent l)) o = true ->
+  exists l', a_op o l = Some l' /\
+             t_op o (ltree l) = Ok (ltree l') /\
+             lwf b l' = true /\
+             lcontent l' = (xstep (fst (lcontent l)) o, snd (lcontent l)) /\
+             lentries l' = estep (lentries l) o.
+Print Assumptions C11_any_step_tree.
+
+(* (1) one operation, on the store: the register machine, started with the tree of ANY well-formed live layout in the root register, does not panic and ends with the tree of the abstract operation's layout in the root register *)
+Theorem C11_any_step : forall b o l st, lwf b l = true -> operands_ok o = true ->
+  x_in_range (fst (lcontent l)) o = true -> holds st (ltree l) ->
+  exists l' st', a_op o l = Some l' /\
+                 run_ops fixed (compile o) st = Ok st' /\ holds st' (ltree l') /\
+                 lwf b l' = true /\
+                 lcontent l' = (xstep (fst (lcontent l)) o, snd (lcontent l)) /\
+                 lentries l' = estep (lentries l) o.
+Proof. exact live_step. Qed.
+Check C11_any_step : forall b o l st, lwf b l = true -> operands_ok o = true ->
+  x_in_range (fst (lcontent l)) o = true -> holds st (ltree l) ->
+  exists l' st', a_op o l = Some l' /\
+                 run_ops fixed (compile o) st = Ok st' /\ holds st' (ltree l') /\
+                 lwf b l' = true /\
+                 lcontent l' = (xstep (fst (lcontent l)) o, snd (lcontent l)) /\
+                 lentries l' = estep (lentries l) o.
+Print Assumptions C11_any_step.
+
+(* (1) the same stated on fields: f_op o = norm . a_op o . live_of *)
+Theorem C11_any_field_step : forall b o f, wf_rfield b f = true -> operands_ok o = true -> x_in_range (fst (rcontent f)) o = true ->
+  exists f' T', f_op o f = Some f' /\
+                t_op o (rtree_of f) = Ok T' /\ text T' = rrender f' /\
+                wf_rfield b f' = true /\
+                rcontent f' = (xstep (fst (rcontent f)) o, snd (rcontent f)).
+Proof. exact field_step. Qed.
+Check C11_any_field_step : forall b o f, wf_rfield b f = true -> operands_ok o = true -> x_in_range (fst (rcontent f)) o = true ->
+  exists f' T', f_op o f = Some f' /\
+                t_op o (rtree_of f) = Ok T' /\ text T' = rrender f' /\
+                wf_rfield b f' = true /\
+                rcontent f' = (xstep (fst (rcontent f)) o, snd (rcontent f)).
+Print Assumptions C11_any_field_step.
+
+(* frame: whenever an abstract operation is defined (any layout, well-formed or not) the entries change by the list operation and the substitution variables stay *)
+Theorem C11_any_step_frame : forall o l l', a_op o l = Some l' ->
+  lentries l' = estep (lentries l) o /\ lsubsts l' = lsubsts l /\ e_in_range (lentries l) o = true.
+Proof. exact entries_step. Qed.
+Check C11_any_step_frame : forall o l l', a_op o l = Some l' ->
+  lentries l' = estep (lentries l) o /\ lsubsts l' = lsubsts l /\ e_in_range (lentries l) o = true.
+Print Assumptions C11_any_step_frame.
+
+(* (3) the text of a well-formed live layout reads back, without error, to its content (through C10) *)
+Theorem C11_any_reread : forall b l, lwf b l = true ->
+  exists a, parse_relaxed (text (ltree l)) b = Ok (rtree_of (norm l), 0) /\
+            text (rtree_of (norm l)) = text (ltree l) /\
+            racc (rtree_of (norm l)) = Ok a /\ racc_view a = lcontent l.
+Proof. exact live_reread. Qed.
+Check C11_any_reread : forall b l, lwf b l = true ->
+  exists a, parse_relaxed (text (ltree l)) b = Ok (rtree_of (norm l), 0) /\
+            text (rtree_of (norm l)) = text (ltree l) /\
+            racc (rtree_of (norm l)) = Ok a /\ racc_view a = lcontent l.
+Print Assumptions C11_any_reread.
+
+(* (2)+(3) histories: from the tree of ANY well-formed field, every in-range history of the twelve operations (operands built by the constructors, identifier texts) runs without panic; the root then prints a well-formed field whose content is the list model's, substitution variables unchanged, and that text reads back without error to exactly that content.  (Apply it to every prefix of a history for the statement after every step; C11_any_history_all gives all intermediate layouts at once.) *)
+Theorem C11_any_history : forall b ops f st, wf_rfield b f = true -> forallb operands_ok ops = true ->
+  xsteps_in_range (fst (rcontent f)) ops = true -> holds st (rtree_of f) ->
+  exists l' st',
+    a_ops ops (live_of f) = Some l' /\
+    run_ops fixed (compile_all ops) st = Ok st' /\
+    root_tree st' = Ok (ltree l') /\ root_text st' = Ok (rrender (norm l')) /\
+    wf_rfield b (norm l') = true /\
+    rcontent (norm l') = (fold_left xstep ops (fst (rcontent f)), snd (rcontent f)) /\
+    exists a, parse_relaxed (rrender (norm l')) b = Ok (rtree_of (norm l'), 0) /\
+              racc (rtree_of (norm l')) = Ok a /\
+              racc_view a = (fold_left xstep ops (fst (rcontent f)), snd (rcontent f)).
+Proof. exact history_any_field. Qed.
+Check C11_any_history : forall b ops f st, wf_rfield b f = true -> forallb operands_ok ops = true ->
+  xsteps_in_range (fst (rcontent f)) ops = true -> holds st (rtree_of f) ->
+  exists l' st',
+    a_ops ops (live_of f) = Some l' /\
+    run_ops fixed (compile_all ops) st = Ok st' /\
+    root_tree st' = Ok (ltree l') /\ root_text st' = Ok (rrender (norm l')) /\
+    wf_rfield b (norm l') = true /\
+    rcontent (norm l') = (fold_left xstep ops (fst (rcontent f)), snd (rcontent f)) /\
+    exists a, parse_relaxed (rrender (norm l')) b = Ok (rtree_of (norm l'), 0) /\
+              racc (rtree_of (norm l')) = Ok a /\
+              racc_view a = (fold_left xstep ops (fst (rcontent f)), snd (rcontent f)).
+Print Assumptions C11_any_history.
+
+Theorem C11_any_history_all : forall b ops l, lwf b l = true -> forallb operands_ok ops = true ->
+  xsteps_in_range (fst (lcontent l)) ops = true ->
+  exists tr, a_trace ops l = Some tr /\ length tr = length ops /\
+             Forall (fun l' => lwf b l' = true /\ snd (lcontent l') = snd (lcontent l)) tr.
+Proof. exact live_history_all. Qed.
+Check C11_any_history_all : forall b ops l, lwf b l = true -> forallb operands_ok ops = true ->
+  xsteps_in_range (fst (lcontent l)) ops = true ->
+  exists tr, a_trace ops l = Some tr /\ length tr = length ops /\
+             Forall (fun l' => lwf b l' = true /\ snd (lcontent l') = snd (lcontent l)) tr.
+Print Assumptions C11_any_history_all.
+
+(* the same from the parsed text of the field (Relations::parse_relaxed(text, true)), ... *)
+Theorem C11_any_history_from_text : forall ops f, wf_rfield true f = true -> forallb operands_ok ops = true ->
+  xsteps_in_range (fst (rcontent f)) ops = true ->
+  exists st0 l' st',
+    init_state fixed (IRelaxed (rrender f)) = Ok st0 /\
+    a_ops ops (live_of f) = Some l' /\
+    run_ops fixed (compile_all ops) st0 = Ok st' /\
+    root_tree st' = Ok (ltree l') /\ root_text st' = Ok (rrender (norm l')) /\
+    wf_rfield true (norm l') = true /\
+    rcontent (norm l') = (fold_left xstep ops (fst (rcontent f)), snd (rcontent f)) /\
+    exists a, parse_relaxed (rrender (norm l')) true = Ok (rtree_of (norm l'), 0) /\
+              racc (rtree_of (norm l')) = Ok a /\
+              racc_view a = (fold_left xstep ops (fst (rcontent f)), snd (rcontent f)).
+Proof. exact history_from_text. Qed.
+Check C11_any_history_from_text : forall ops f, wf_rfield true f = true -> forallb operands_ok ops = true ->
+  xsteps_in_range (fst (rcontent f)) ops = true ->
+  exists st0 l' st',
+    init_state fixed (IRelaxed (rrender f)) = Ok st0 /\
+    a_ops ops (live_of f) = Some l' /\
+    run_ops fixed (compile_all ops) st0 = Ok st' /\
+    root_tree st' = Ok (ltree l') /\ root_text st' = Ok (rrender (norm l')) /\
+    wf_rfield true (norm l') = true /\
+    rcontent (norm l') = (fold_left xstep ops (fst (rcontent f)), snd (rcontent f)) /\
+    exists a, parse_relaxed (rrender (norm l')) true = Ok (rtree_of (norm l'), 0) /\
+              racc (rtree_of (norm l')) = Ok a /\
+              racc_view a = (fold_left xstep ops (fst (rcontent f)), snd (rcontent f)).
+Print Assumptions C11_any_history_from_text.
+
+(* ... from text.parse::<Relations>() with the STRICT re-read (Relations::from_str) of the result, ... *)
+Theorem C11_any_history_from_strict_text : forall ops f, wf_rfield false f = true -> forallb operands_ok ops = true ->
+  xsteps_in_range (fst (rcontent f)) ops = true ->
+  exists st0 l' st',
+    init_state fixed (IStrict (rrender f)) = Ok st0 /\
+    a_ops ops (live_of f) = Some l' /\
+    run_ops fixed (compile_all ops) st0 = Ok st' /\
+    root_text st' = Ok (rrender (norm l')) /\
+    wf_rfield false (norm l') = true /\
+    relations_from_str (rrender (norm l')) = Ok (rtree_of (norm l')) /\
+    exists a, racc (rtree_of (norm l')) = Ok a /\
+              racc_view a = (fold_left xstep ops (fst (rcontent f)), snd (rcontent f)).
+Proof. exact history_from_strict_text. Qed.
+Check C11_any_history_from_strict_text : forall ops f, wf_rfield false f = true -> forallb operands_ok ops = true ->
+  xsteps_in_range (fst (rcontent f)) ops = true ->
+  exists st0 l' st',
+    init_state fixed (IStrict (rrender f)) = Ok st0 /\
+    a_ops ops (live_of f) = Some l' /\
+    run_ops fixed (compile_all ops) st0 = Ok st' /\
+    root_text st' = Ok (rrender (norm l')) /\
+    wf_rfield false (norm l') = true /\
+    relations_from_str (rrender (norm l')) = Ok (rtree_of (norm l')) /\
+    exists a, racc (rtree_of (norm l')) = Ok a /\
+              racc_view a = (fold_left xstep ops (fst (rcontent f)), snd (rcontent f)).
+Print Assumptions C11_any_history_from_strict_text.
+
+(* ... and from the empty field, Relations::new() *)
+Theorem C11_any_history_from_empty : forall ops, forallb operands_ok ops = true -> xsteps_in_range [] ops = true ->
+  exists st0 l' st',
+    init_state fixed INew = Ok st0 /\
+    a_ops ops [] = Some l' /\
+    run_ops fixed (compile_all ops) st0 = Ok st' /\
+    root_text st' = Ok (rrender (norm l')) /\
+    wf_rfield false (norm l') = true /\
+    relations_from_str (rrender (norm l')) = Ok (rtree_of (norm l')) /\
+    exists a, racc (rtree_of (norm l')) = Ok a /\ racc_view a = (fold_left xstep ops [], []).
+Proof. exact history_from_empty. Qed.
+Check C11_any_history_from_empty : forall ops, forallb operands_ok ops = true -> xsteps_in_range [] ops = true ->
+  exists st0 l' st',
+    init_state fixed INew = Ok st0 /\
+    a_ops ops [] = Some l' /\
+    run_ops fixed (compile_all ops) st0 = Ok st' /\
+    root_text st' = Ok (rrender (norm l')) /\
+    wf_rfield false (norm l') = true /\
+    relations_from_str (rrender (norm l')) = Ok (rtree_of (norm l')) /\
+    exists a, racc (rtree_of (norm l')) = Ok a /\ racc_view a = (fold_left xstep ops [], []).
+Print Assumptions C11_any_history_from_empty.
+
+(* the store level on ANY tree (no assumption on the layout; for Entry::replace: the replaced alternative does not begin with white space): the register machine computes the pure tree function t_op of model/RelEditTree.v *)
+Theorem C11_any_machine_step : forall o T T' st,
+  operands_new_all o = true -> ereplace_ready o T -> holds st T -> t_op o T = Ok T' ->
+  exists st', run_ops fixed (compile o) st = Ok st' /\ holds st' T'.
+Proof. exact op_step_tree_all. Qed.
+Check C11_any_machine_step : forall o T T' st,
+  operands_new_all o = true -> ereplace_ready o T -> holds st T -> t_op o T = Ok T' ->
+  exists st', run_ops fixed (compile o) st = Ok st' /\ holds st' T'.
+Print Assumptions C11_any_machine_step.
+
+(* 1c. Operands obtained by PARSING (Entry::from_str / Relation::from_str of the text of any
+   well-formed entry / relation: the operand handle points INTO the parsed tree, and an edit that
+   attaches it detaches it from there first), model/RelLive.v [pop], [pcompile], [a_pop], [pxstep];
+   [gop] = either kind of operand. *)
+(* the store level on ANY tree: parse the operand, obtain the handle into the parsed tree, run the operation = the tree function tt_op with the operand's node *)
+Theorem C11_any_parsed_machine_step : forall o T T' st,
+  poperands_ok o = true -> preplace_ready o T -> holds st T -> tt_op (ptop o) T = Ok T' ->
+  exists st', run_ops fixed (pcompile o) st = Ok st' /\ holds st' T'.
+Proof. exact pop_step_tree. Qed.
+Check C11_any_parsed_machine_step : forall o T T' st,
+  poperands_ok o = true -> preplace_ready o T -> holds st T -> tt_op (ptop o) T = Ok T' ->
+  exists st', run_ops fixed (pcompile o) st = Ok st' /\ holds st' T'.
+Print Assumptions C11_any_parsed_machine_step.
+
+(* (1) one operation with either kind of operand on ANY well-formed live layout *)
+Theorem C11_any_mixed_step : forall b o l st, lwf b l = true -> goperands_ok o = true ->
+  g_in_range (fst (lcontent l)) o = true -> holds st (ltree l) ->
+  exists l' st', g_op o l = Some l' /\
+                 run_ops fixed (gcompile o) st = Ok st' /\ holds st' (ltree l') /\
+                 lwf b l' = true /\
+                 lcontent l' = (gxstep (fst (lcontent l)) o, snd (lcontent l)).
+Proof. exact g_step. Qed.
+Check C11_any_mixed_step : forall b o l st, lwf b l = true -> goperands_ok o = true ->
+  g_in_range (fst (lcontent l)) o = true -> holds st (ltree l) ->
+  exists l' st', g_op o l = Some l' /\
+                 run_ops fixed (gcompile o) st = Ok st' /\ holds st' (ltree l') /\
+                 lwf b l' = true /\
+                 lcontent l' = (gxstep (fst (lcontent l)) o, snd (lcontent l)).
+Print Assumptions C11_any_mixed_step.
+
+(* (2)+(3) histories mixing constructor-built and parsed operands, from any well-formed field, with the re-read *)
+Theorem C11_any_mixed_history : forall b ops f st, wf_rfield b f = true -> forallb goperands_ok ops = true ->
+  gsteps_in_range (fst (rcontent f)) ops = true -> holds st (rtree_of f) ->
+  exists l' st',
+    g_ops ops (live_of f) = Some l' /\
+    run_ops fixed (gcompile_all ops) st = Ok st' /\
+    root_tree st' = Ok (ltree l') /\ root_text st' = Ok (rrender (norm l')) /\
+    wf_rfield b (norm l') = true /\
+    rcontent (norm l') = (fold_left gxstep ops (fst (rcontent f)), snd (rcontent f)) /\
+    exists a, parse_relaxed (rrender (norm l')) b = Ok (rtree_of (norm l'), 0) /\
+              racc (rtree_of (norm l')) = Ok a /\
+              racc_view a = (fold_left gxstep ops (fst (rcontent f)), snd (rcontent f)).
+Proof. exact g_history_any_field. Qed.
+Check C11_any_mixed_history : forall b ops f st, wf_rfield b f = true -> forallb goperands_ok ops = true ->
+  gsteps_in_range (fst (rcontent f)) ops = true -> holds st (rtree_of f) ->
+  exists l' st',
+    g_ops ops (live_of f) = Some l' /\
+    run_ops fixed (gcompile_all ops) st = Ok st' /\
+    root_tree st' = Ok (ltree l') /\ root_text st' = Ok (rrender (norm l')) /\
+    wf_rfield b (norm l') = true /\
+    rcontent (norm l') = (fold_left gxstep ops (fst (rcontent f)), snd (rcontent f)) /\
+    exists a, parse_relaxed (rrender (norm l')) b = Ok (rtree_of (norm l'), 0) /\
+              racc (rtree_of (norm l')) = Ok a /\
+              racc_view a = (fold_left gxstep ops (fst (rcontent f)), snd (rcontent f)).
+Print Assumptions C11_any_mixed_history.
+
+Theorem C11_any_mixed_history_from_text : forall ops f, wf_rfield true f = true -> forallb goperands_ok ops = true ->
+  gsteps_in_range (fst (rcontent f)) ops = true ->
+  exists st0 l' st',
+    init_state fixed (IRelaxed (rrender f)) = Ok st0 /\
+    g_ops ops (live_of f) = Some l' /\
+    run_ops fixed (gcompile_all ops) st0 = Ok st' /\
+    root_tree st' = Ok (ltree l') /\ root_text st' = Ok (rrender (norm l')) /\
+    wf_rfield true (norm l') = true /\
+    rcontent (norm l') = (fold_left gxstep ops (fst (rcontent f)), snd (rcontent f)) /\
+    exists a, parse_relaxed (rrender (norm l')) true = Ok (rtree_of (norm l'), 0) /\
+              racc (rtree_of (norm l')) = Ok a /\
+              racc_view a = (fold_left gxstep ops (fst (rcontent f)), snd (rcontent f)).
+Proof. exact g_history_from_text. Qed.
+Check C11_any_mixed_history_from_text : forall ops f, wf_rfield true f = true -> forallb goperands_ok ops = true ->
+  gsteps_in_range (fst (rcontent f)) ops = true ->
+  exists st0 l' st',
+    init_state fixed (IRelaxed (rrender f)) = Ok st0 /\
+    g_ops ops (live_of f) = Some l' /\
+    run_ops fixed (gcompile_all ops) st0 = Ok st' /\
+    root_tree st' = Ok (ltree l') /\ root_text st' = Ok (rrender (norm l')) /\
+    wf_rfield true (norm l') = true /\
+    rcontent (norm l') = (fold_left gxstep ops (fst (rcontent f)), snd (rcontent f)) /\
+    exists a, parse_relaxed (rrender (norm l')) true = Ok (rtree_of (norm l'), 0) /\
+              racc (rtree_of (norm l')) = Ok a /\
+              racc_view a = (fold_left gxstep ops (fst (rcontent f)), snd (rcontent f)).
+Print Assumptions C11_any_mixed_history_from_text.
 
 (* 2. Constructor-built fields read back as the list they were built from, and print canonically *)
 Theorem C11_structure_constructed : forall f, plain_field f = true -> structure (cfield_tree f) = Ok f.
@@ -387,4 +710,55 @@ Example C11_ex :
   forallb (forallb new_only) f = true /\ forallb aop_plain ops = true /\ hist_in_range f ops = true /\
   run_text fixed (IFromVec (map entry_spec f)) (compile_all ops) = Ok [120; 58; 97; 110; 121; 32; 40; 60; 60; 32; 51; 41; 44; 32; 119; 32; 40; 62; 62; 32; 52; 41; 32; 124; 32; 122]%N /\
   fold_left astep ops f = [[mk_relrec [120]%N (Some [97; 110; 121]%N) (Some (VLt, [51]%N)) None []]; [r [119]%N (Some (VGt, [52]%N)); r [122]%N None]].
+Proof. vm_compute. repeat split; reflexivity. Qed.
+
+(* Non-vacuity of C11_any_history_from_text: the field
+     " a  (>= 1)\n | b:any , ${x}, , c [amd64] <!p>,"
+   (leading space, two spaces before the version, a newline before '|', white space before ',',
+   a substitution variable, an empty entry, a trailing comma) and a history that uses all twelve
+   operations: the hypotheses hold, the machine's final text is computed and is the rendering of
+   the abstract history's layout:
+     " w (>> 4)\n | b:any (<< 3) , ${x}, , c [amd64] <!p> <q !r>" *)
+Example C11_any_ex :
+  let sp := [32%N] in
+  let r1 := mk_rel [97%N] None (Some (mk_vclause [32;32]%N [] RelAcc.VGe sp None [49%N] [] [])) None [] [10;32]%N in
+  let r2 := mk_rel [98%N] (Some (mk_qual [] [] [97;110;121]%N)) None None [] sp in
+  let r3 := mk_rel [99%N] None None (Some (mk_group sp [mk_term [] false [97;109;100;54;52]%N] []))
+                   [mk_group sp [mk_term [] true [112%N]] []] [] in
+  let f := mk_rfield sp (IEntry r1 [(sp, r2)]) [(sp, ISubst [120%N] [] []); (sp, IEmpty); (sp, IEntry r3 []); ([], IEmpty)] in
+  let n s v := mk_relrec s None v None [] in
+  let ops := [AInsert 0 [n [101%N] (Some (VEq, [50%N]))]; APush [n [100%N] None]; AReplace 3 [n [120%N] None; n [121%N] None];
+              ASetArchqual 1 0 [105;51;56;54]%N; ASetVersion 1 1 (Some (VLt, [51%N])); ADropConstraint 1 0;
+              ASetArchs 3 0 [[97;109;100;54;52]%N; [97;114;109;54;52]%N]; AAddProfile 2 0 [PEnabled [113%N]; PDisabled [114%N]];
+              AEPush 0 (n [122%N] None); AEReplace 1 0 (n [119%N] (Some (VGt, [52%N])));
+              ARemoveRelation 3 1; ARemoveRelation 3 0; ARemoveEntry 0] in
+  wf_rfield true f = true /\ rrender f = [32; 97; 32; 32; 40; 62; 61; 32; 49; 41; 10; 32; 124; 32; 98; 58; 97; 110; 121; 32; 44; 32; 36; 123; 120; 125; 44; 32; 44; 32; 99; 32; 91; 97; 109; 100; 54; 52; 93; 32; 60; 33; 112; 62; 44]%N /\
+  forallb operands_ok ops = true /\ xsteps_in_range (fst (rcontent f)) ops = true /\
+  run_text fixed (IRelaxed (rrender f)) (compile_all ops) = Ok [32; 119; 32; 40; 62; 62; 32; 52; 41; 10; 32; 124; 32; 98; 58; 97; 110; 121; 32; 40; 60; 60; 32; 51; 41; 32; 44; 32; 36; 123; 120; 125; 44; 32; 44; 32; 99; 32; 91; 97; 109; 100; 54; 52; 93; 32; 60; 33; 112; 62; 32; 60; 113; 32; 33; 114; 62]%N /\
+  option_map (fun l => rrender (norm l)) (a_ops ops (live_of f)) = Some [32; 119; 32; 40; 62; 62; 32; 52; 41; 10; 32; 124; 32; 98; 58; 97; 110; 121; 32; 40; 60; 60; 32; 51; 41; 32; 44; 32; 36; 123; 120; 125; 44; 32; 44; 32; 99; 32; 91; 97; 109; 100; 54; 52; 93; 32; 60; 33; 112; 62; 32; 60; 113; 32; 33; 114; 62]%N /\
+  reads_clean [32; 119; 32; 40; 62; 62; 32; 52; 41; 10; 32; 124; 32; 98; 58; 97; 110; 121; 32; 40; 60; 60; 32; 51; 41; 32; 44; 32; 36; 123; 120; 125; 44; 32; 44; 32; 99; 32; 91; 97; 109; 100; 54; 52; 93; 32; 60; 33; 112; 62; 32; 60; 113; 32; 33; 114; 62]%N = true.
+Proof. vm_compute. repeat split; reflexivity. Qed.
+
+(* Non-vacuity of C11_any_mixed_history_from_text: the same field, operands parsed from texts
+   with odd white space (" e( =1:2 )\t\n | g ", "z :any ", " w  ", "\nd", "x |y"):
+     " e( =1:2 ), w\n | b:any  | z :any , ${x}, , x |y (<< 3), d" *)
+Example C11_any_parsed_ex :
+  let sp := [32%N] in
+  let r1 := mk_rel [97%N] None (Some (mk_vclause [32;32]%N [] RelAcc.VGe sp None [49%N] [] [])) None [] [10;32]%N in
+  let r2 := mk_rel [98%N] (Some (mk_qual [] [] [97;110;121]%N)) None None [] sp in
+  let r3 := mk_rel [99%N] None None (Some (mk_group sp [mk_term [] false [97;109;100;54;52]%N] []))
+                   [mk_group sp [mk_term [] true [112%N]] []] [] in
+  let f := mk_rfield sp (IEntry r1 [(sp, r2)]) [(sp, ISubst [120%N] [] []); (sp, IEmpty); (sp, IEntry r3 []); ([], IEmpty)] in
+  let nm s tr := mk_rel s None None None [] tr in
+  let ops := [GP (PInsert 0 sp (mk_rel [101%N] None (Some (mk_vclause [] sp RelAcc.VEq [] (Some [49%N]) [50%N] [] sp)) None [] [9%N])
+                          [([10;32]%N, nm [103%N] sp)]);
+              GP (PEPush 1 [] (mk_rel [122%N] (Some (mk_qual sp [] [97;110;121]%N)) None None [] sp));
+              GP (PEReplace 1 0 sp (nm [119%N] [32;32]%N));
+              GP (PPush [10%N] (nm [100%N] []) []);
+              GP (PReplace 2 [] (nm [120%N] sp) [([], nm [121%N] [])]);
+              GA (ARemoveRelation 0 1); GA (ASetVersion 2 1 (Some (VLt, [51%N])))] in
+  wf_rfield true f = true /\ forallb goperands_ok ops = true /\ gsteps_in_range (fst (rcontent f)) ops = true /\
+  run_text fixed (IRelaxed (rrender f)) (gcompile_all ops) = Ok [32; 101; 40; 32; 61; 49; 58; 50; 32; 41; 44; 32; 119; 10; 32; 124; 32; 98; 58; 97; 110; 121; 32; 32; 124; 32; 122; 32; 58; 97; 110; 121; 32; 44; 32; 36; 123; 120; 125; 44; 32; 44; 32; 120; 32; 124; 121; 32; 40; 60; 60; 32; 51; 41; 44; 32; 100]%N /\
+  option_map (fun l => rrender (norm l)) (g_ops ops (live_of f)) = Some [32; 101; 40; 32; 61; 49; 58; 50; 32; 41; 44; 32; 119; 10; 32; 124; 32; 98; 58; 97; 110; 121; 32; 32; 124; 32; 122; 32; 58; 97; 110; 121; 32; 44; 32; 36; 123; 120; 125; 44; 32; 44; 32; 120; 32; 124; 121; 32; 40; 60; 60; 32; 51; 41; 44; 32; 100]%N /\
+  reads_clean [32; 101; 40; 32; 61; 49; 58; 50; 32; 41; 44; 32; 119; 10; 32; 124; 32; 98; 58; 97; 110; 121; 32; 32; 124; 32; 122; 32; 58; 97; 110; 121; 32; 44; 32; 36; 123; 120; 125; 44; 32; 44; 32; 120; 32; 124; 121; 32; 40; 60; 60; 32; 51; 41; 44; 32; 100]%N = true.
 Proof. vm_compute. repeat split; reflexivity. Qed.
